@@ -245,6 +245,9 @@ func runC15(c *fw.Ctx) {
 	w.Ent, w.Reg, w.Stream, w.Bank, w.Staking = 35, 30, 25, 6, 0
 	w.EntHostile, w.GovPct, w.VetoPct, w.LowGasPct = 5, 4, 0, 0
 	RunMixed(e, g, w, r.Range(25, 45))
+	if r.Chance(50) { // parties of other address lengths must come through an export as they are
+		oddReceiverStreams(c, e, g, 50)
+	}
 	if e.Halted != "" {
 		c.Count("halted_histories", 1)
 		return
